@@ -84,11 +84,11 @@ theorem every_opcode_keeps_forest : OpsPreserve PF := ops_PF
 /-- **C04, rule actions.** -/
 theorem action_keeps_forest {is : List Instr} {dl : Bool} {mr : Nat} {data : List Nat} {ctx : Ctx} {l : List Nat}
     (hl : Linked ctx.seg l) (hc : Clean ctx.seg l) (hh : ∀ x, ctx.highwater = some x → x ∈ l)
-    (hcell : IsOK ctx.seg l (ctx.smap.getD ((ctx.context : Int) + 1).toNat none))
+    (hcell : IsOK ctx.seg l (ctx.smap.getD ((ctx.context : Int) + 1).toNat none)) (ha : Alloc ctx.seg l)
     (hF : Forest ctx.seg) (hcells : CellsOK ctx)
     {r : Int} {st : Status} {so : Option Nat} {c : Ctx}
     (e : doAction is dl mr data ctx = .ok (r, st, so, c)) : Forest c.seg :=
-  doAction_forest hl hc hh hcell hF hcells e
+  doAction_forest hl hc hh hcell ha hF hcells e
 
 /-- **C04, whole pipeline.** For every font – any passes, state tables, rules, constraint and action programs – and every
 text: the attachment pointers of the segment the modelled pipeline returns form a forest, and its glyph stream is well
@@ -97,7 +97,7 @@ theorem pipeline_forest (font : Pass.Font) (text : List Nat) (fuel : Nat) {c : C
     (e : Pass.shape font text fuel = .ok (some (c, ci))) :
     Forest c.seg ∧ ∃ l, Linked c.seg l ∧ Clean c.seg l ∧ ∀ j ∈ l, Real c.seg j :=
   ⟨Pass.shape_forest font text fuel e, by
-    obtain ⟨l, h1, h2⟩ := Pass.shape_wf font text fuel e
+    obtain ⟨l, h1, h2, _⟩ := Pass.shape_wf font text fuel e
     exact ⟨l, h1, h2, fun j hj => (h2.live j hj).2⟩⟩
 
 /-- what the forest means for a client that walks the pointers -/
